@@ -184,7 +184,9 @@ func (c *Ctx) embFun(structT types.Type, f *types.Var) string {
 	name := smtName("emb_" + typeKey(structT) + "." + f.Name())
 	if !c.sc.declSeen[name] {
 		c.sc.declareFun(name, []Sort{SV}, SV)
-		c.sc.axiomOnce(fmt.Sprintf("(forall ((r V)) (! (and (= (birth (%s r)) (birth r)) (not (= (%s r) null))) :pattern ((%s r))))", name, name, name))
+		c.sc.declareFun("embtag", []Sort{SV}, SInt)
+		c.embTags++
+		c.sc.axiomOnce(fmt.Sprintf("(forall ((r V)) (! (and (= (birth (%s r)) (birth r)) (not (= (%s r) null)) (= (embtag (%s r)) %d)) :pattern ((%s r))))", name, name, name, c.embTags, name))
 	}
 	return name
 }
